@@ -398,9 +398,9 @@ func (ev *evaluator) eval(e Expr) *Val {
 		case SInt:
 			if base.T != nil {
 				if mt, ok := base.T.Underlying().(*types.Map); ok {
-					ks, vs := sortOf(mt.Key()), sortOf(mt.Elem())
+					_, _, vk, vas, _, _, vs := mapHeap(base.T)
 					k := st.coerce(idx, mt.Key())
-					val := sel(sel(st.heapGet("MV:"+ks+":"+vs, "(Array Int (Array "+ks+" "+vs+"))"), base.Tm), k.Tm)
+					val := sel(sel(st.heapGet(vk, vas), base.Tm), k.Tm)
 					return &Val{T: mt.Elem(), S: vs, Tm: val}
 				}
 			}
@@ -510,7 +510,8 @@ func (ev *evaluator) call(x ECall) *Val {
 		case SInt:
 			if a.T != nil {
 				if _, ok := a.T.Underlying().(*types.Map); ok {
-					return intVal(ite(eq(a.Tm, "0"), "0", sel(st.heapGet("ML", "(Array Int Int)"), a.Tm)))
+					_, _, _, _, lk, _, _ := mapHeap(a.T)
+					return intVal(ite(eq(a.Tm, "0"), "0", sel(st.heapGet(lk, "(Array Int Int)"), a.Tm)))
 				}
 			}
 		}
@@ -542,15 +543,25 @@ func (ev *evaluator) call(x ECall) *Val {
 		if a.S == SReal && b.S == SInt {
 			b = &Val{S: SReal, Tm: "(to_real " + b.Tm + ")"}
 		}
-		return &Val{T: a.T, S: a.S, Tm: ite(c.Tm, a.Tm, b.Tm)}
+		if a.S != b.S && a.S == SInt && a.Tm == "0" {
+			a = &Val{T: b.T, S: b.S, Tm: zeroOfSort(b.S)}
+		}
+		if a.S != b.S && b.S == SInt && b.Tm == "0" {
+			b = &Val{T: a.T, S: a.S, Tm: zeroOfSort(a.S)}
+		}
+		t := a.T
+		if t == nil {
+			t = b.T
+		}
+		return &Val{T: t, S: a.S, Tm: ite(c.Tm, a.Tm, b.Tm)}
 	case "has": // has(m, k): key present in Go map
 		m := ev.eval(x.Args[0])
 		k := ev.eval(x.Args[1])
 		if m.T != nil {
 			if mt, ok := m.T.Underlying().(*types.Map); ok {
-				ks := sortOf(mt.Key())
+				dk, das, _, _, _, _, _ := mapHeap(m.T)
 				k = st.coerce(k, mt.Key())
-				return boolVal(and(not(eq(m.Tm, "0")), sel(sel(st.heapGet("MD:"+ks, "(Array Int (Array "+ks+" Bool))"), m.Tm), k.Tm)))
+				return boolVal(and(not(eq(m.Tm, "0")), sel(sel(st.heapGet(dk, das), m.Tm), k.Tm)))
 			}
 		}
 		return ev.fail("has() on non-map")
@@ -560,6 +571,16 @@ func (ev *evaluator) call(x ECall) *Val {
 	case "rheld":
 		m := ev.eval(x.Args[0])
 		return boolVal("(> " + sel(st.heapGet("L:r", "(Array Int Int)"), ev.addrOf(m)) + " 0)")
+	case "rcount":
+		m := ev.eval(x.Args[0])
+		return intVal(sel(st.heapGet("L:r", "(Array Int Int)"), ev.addrOf(m)))
+	case "onlyRLocked": // onlyRLocked(m): m is read-locked exactly once and no other mutex is read-locked
+		m := ev.eval(x.Args[0])
+		return boolVal(eq(st.heapGet("L:r", "(Array Int Int)"), store("((as const (Array Int Int)) 0)", ev.addrOf(m), "1")))
+	case "nowlocks":
+		return boolVal(eq(st.heapGet("L:w", "(Array Int Bool)"), "((as const (Array Int Bool)) false)"))
+	case "norlocks":
+		return boolVal(eq(st.heapGet("L:r", "(Array Int Int)"), "((as const (Array Int Int)) 0)"))
 	case "real":
 		a := ev.eval(x.Args[0])
 		if a.S == SReal {
@@ -804,6 +825,21 @@ func (vf *VerifyFunc) checkFrame(st *State, where string) {
 					wild[s.V] = true
 				}
 			}
+			if x.Fun == "mapof" {
+				ev := &evaluator{st: st, vf: vf, env: vf.env, pkgPath: vf.fc.PkgPath}
+				save := st.useOld
+				st.useOld = true
+				r := ev.eval(x.Args[0])
+				st.useOld = save
+				if r.T != nil {
+					if _, isMap := r.T.Underlying().(*types.Map); isMap {
+						dk, _, vk, _, lk, _, _ := mapHeap(r.T)
+						allowed[dk] = append(allowed[dk], r.Tm)
+						allowed[vk] = append(allowed[vk], r.Tm)
+						allowed[lk] = append(allowed[lk], r.Tm)
+					}
+				}
+			}
 			if x.Fun == "elems" {
 				ev := &evaluator{st: st, vf: vf, env: vf.env, pkgPath: vf.fc.PkgPath}
 				save := st.useOld
@@ -842,19 +878,10 @@ func (vf *VerifyFunc) checkFrame(st *State, where string) {
 		for _, r := range allowed[k] {
 			ex = append(ex, not(eq("fr_r", r)))
 		}
-		for _, r := range st.known {
-			if strings.HasPrefix(r, "ref_") || strings.HasPrefix(r, "|ref_") || strings.HasPrefix(r, "map!") || strings.HasPrefix(r, "backing!") || strings.HasPrefix(r, "appbacking!") || strings.HasPrefix(r, "closure!") || strings.HasPrefix(r, "chan!") || strings.HasPrefix(r, "bytescell!") {
-				ex = append(ex, not(eq("fr_r", r)))
-			}
+		for _, r := range st.freshRefs {
+			ex = append(ex, not(eq("(obj_root fr_r)", r)))
 		}
-		// sub-objects of fresh objects (fld_addr of a fresh ref) are exempt as well
-		var ex2 []string
-		for _, c := range ex {
-			ex2 = append(ex2, c)
-			if strings.Contains(c, "(= fr_r ") {
-				ex2 = append(ex2, strings.Replace(c, "(= fr_r ", "(= (fld_base fr_r) ", 1), strings.Replace(c, "(= fr_r ", "(= (fld_base (fld_base fr_r)) ", 1))
-			}
-		}
+		ex2 := ex
 		goal := "(forall ((fr_r Int)) (=> " + and(ex2...) + " (= (select " + cur + " fr_r) (select " + sym(n0) + " fr_r))))"
 		st.check("frame", k, "", "only locations in modifies change ("+k+")", where, goal)
 	}
